@@ -59,7 +59,7 @@ contract('parso.cache._set_cache_item',
          modifies=['parser_cache', '$maps'], props=['C16'])
 
 contract('parso.file_io.FileIO.get_last_modified', params={'self': 'ref:FileIO'}, returns='opt:int', trusted=True,
-         ensures=['implies(not (result is None), result == cur_mtime(self.path))'],
+         ensures=['implies(not (result is None), result == cur_mtime(self.path))'], raises=['OSError'],
          note='environment: the modification time observed now')
 # ---- the disk branch.  Ghost file system: file_mtime(p) is the modification time of the file at p, file_obj(p) the
 # object its pickle holds, path_of(h) the path a file handle was opened on, hashed_path(g, p, c) the cache file name.
@@ -154,4 +154,38 @@ contract('parso.cache.load_module',
                    'parser_cache[g][p].change_time <= cur_mtime(p) and '
                    'parser_cache[g][p].node.ver == ver_at(p, parser_cache[g][p].change_time)))'],
          ensures=['implies(result is not None, result.ver == ver_at(file_io.path, cur_mtime(file_io.path)))'],
-         raises=[], modifies=['parser_cache', '$maps', 'last_used'], props=['C16'])
+         raises=['OSError'], modifies=['parser_cache', '$maps', 'last_used'], props=['C16'])
+
+
+# ---- try_to_save_module (C17: a failed save never fails the parse; C16: what the memory entry holds).
+# The entry is stored in memory before the disk is touched, so it is there whatever the disk does; nothing escapes.
+contract('parso.cache._NodeCacheItem.__init__',
+         params={'self': 'ref:_NodeCacheItem', 'node': 'ref:Module', 'lines': 'any', 'change_time': 'opt:int'},
+         ensures=['self.node is node', 'self.lines == lines',
+                  'implies(not (change_time is None), self.change_time == change_time)', 'self.last_used == self.change_time'],
+         modifies=['self.node', 'self.lines', 'self.change_time', 'self.last_used'], props=['C16'])
+contract('parso.cache._save_to_file_system',
+         params={'hashed_grammar': 'any', 'path': 'any', 'item': 'ref:_NodeCacheItem', 'cache_path': 'any'},
+         trusted=True, raises=['Exception'], lists=[],
+         note='environment: writing the pickle may fail in any way (full disk, permissions, unpicklable tree, recursion)')
+contract('parso.cache._remove_cache_and_update_lock', params={'cache_path': 'any'}, trusted=True, raises=['OSError'], lists=[],
+         note='environment: directory clean-up; only OSError escapes it (effect obligation eff:C17:raises)')
+contract('ext:_warnings.warn', params={'message': 'any', 'category': 'any'}, trusted=True,
+         note='ASSUMED not to raise: under the default warning filters a warning is printed; with -W error a failed save '
+              'would surface as an exception (configuration outside the property)')
+contract('parso.cache.try_to_save_module',
+         params={'hashed_grammar': 'any', 'file_io': 'ref:FileIO', 'module': 'ref:Module', 'lines': 'any', 'pickling': 'bool',
+                 'cache_path': 'any'},
+         globals_=CACHE,
+         requires=['file_io is not None', 'module is not None', 'parser_cache is not None', 'allocated(parser_cache)',
+                   'forall(lambda g: implies(g in parser_cache, parser_cache[g] is not None and parser_cache[g] is not parser_cache '
+                   'and allocated(parser_cache[g])))',
+                   'forall(lambda g1, g2: implies(g1 in parser_cache and g2 in parser_cache and g1 != g2, '
+                   'parser_cache[g1] is not parser_cache[g2]))'],
+         ensures=['hashed_grammar in parser_cache and file_io.path in parser_cache[hashed_grammar]',
+                  'parser_cache[hashed_grammar][file_io.path] is not None',
+                  'parser_cache[hashed_grammar][file_io.path].node is module',
+                  # every other entry that exists afterwards existed before with the same item
+                  'forall(lambda g, p: implies(g in parser_cache and p in parser_cache[g] and not (g == hashed_grammar and p == file_io.path), '
+                  'old(g in parser_cache and p in parser_cache[g]) and parser_cache[g][p] is old(parser_cache[g][p])))'],
+         raises=[], modifies=['parser_cache', '$maps', 'node', 'lines', 'change_time', 'last_used'], props=['C16', 'C17'])
